@@ -30,6 +30,7 @@ type oblResult struct {
 type job struct {
 	res   *oblResult
 	query string
+	light string
 	sgIdx int
 	sg    subgoal
 }
@@ -131,7 +132,7 @@ func run(repo, verif, prop, tier, only, dump string, list, verbose bool, timeout
 			}
 			if o.IsCover {
 				q := ex.buildQuery(o, subgoal{nil, False}, "", nil)
-				jobs = append(jobs, job{r, q, 0, subgoal{nil, False}})
+				jobs = append(jobs, job{r, q, "", 0, subgoal{nil, False}})
 				r.Subgoals = 1
 				continue
 			}
@@ -145,7 +146,8 @@ func run(repo, verif, prop, tier, only, dump string, list, verbose bool, timeout
 			}
 			for i, sg := range sgs {
 				q := ex.buildQuery(o, sg, "", ex.inputTerms())
-				jobs = append(jobs, job{r, q, i, sg})
+				lq := ex.buildQueryMode(o, sg, "", nil, true)
+				jobs = append(jobs, job{r, q, lq, i, sg})
 			}
 		}
 	}
@@ -195,7 +197,16 @@ func run(repo, verif, prop, tier, only, dump string, list, verbose bool, timeout
 			if j.res.O.IsCover {
 				to = 3
 			}
-			sr := Solve(j.query, to, tier == "thorough" && !j.res.O.IsCover)
+			var sr SolverResult
+			if j.light != "" {
+				sr = Solve(j.light, 4, false)
+				if sr.Status == "unsat" {
+					sr.Solver += "(inst)"
+				}
+			}
+			if sr.Status != "unsat" {
+				sr = Solve(j.query, to, tier == "thorough" && !j.res.O.IsCover)
+			}
 			mu.Lock()
 			defer mu.Unlock()
 			solverMs += sr.Ms
